@@ -27,10 +27,12 @@ structure WF (gs : List Obj) : Prop where
 def Keeps (u : Obj → Obj) : Prop :=
   ∀ o, (u o).isFunction = o.isFunction ∧ (u o).sym = o.sym ∧ (u o).isLive = o.isLive ∧ (u o).isTentative = o.isTentative
 
+omit [Rules] in
 theorem fnName_keeps {u : Obj → Obj} (hu : Keeps u) (o : Obj) : fnName (u o) = fnName o := by
   unfold fnName
   rw [(hu o).1, (hu o).2.1]
 
+omit [Rules] in
 theorem fnNamesOf_updFirst {u : Obj → Obj} (hu : Keeps u) (p : Obj → Bool) (gs : List Obj) :
     fnNamesOf (updFirst p u gs) = fnNamesOf gs := by
   induction gs with
@@ -42,6 +44,7 @@ theorem fnNamesOf_updFirst {u : Obj → Obj} (hu : Keeps u) (p : Obj → Bool) (
     · simp only [fnNamesOf, List.filterMap_cons] at ih ⊢
       rw [ih]
 
+omit [Rules] in
 theorem mem_updFirst {p : Obj → Bool} {u : Obj → Obj} {gs : List Obj} {o' : Obj} (h : o' ∈ updFirst p u gs) :
     ∃ o, o ∈ gs ∧ (o' = o ∨ o' = u o) := by
   induction gs with
@@ -57,6 +60,7 @@ theorem mem_updFirst {p : Obj → Bool} {u : Obj → Obj} {gs : List Obj} {o' : 
       · obtain ⟨o, ho, hh⟩ := ih h
         exact ⟨o, List.mem_cons_of_mem _ ho, hh⟩
 
+omit [Rules] in
 theorem noneLive_updFirst {u : Obj → Obj} (hu : Keeps u) (p : Obj → Bool) {gs : List Obj} (h : NoneLive gs) :
     NoneLive (updFirst p u gs) := by
   intro o' ho'
@@ -65,6 +69,7 @@ theorem noneLive_updFirst {u : Obj → Obj} (hu : Keeps u) (p : Obj → Bool) {g
   · exact h _ ho
   · rw [(hu o).2.2.1]; exact h _ ho
 
+omit [Rules] in
 theorem fnNotTent_updFirst {u : Obj → Obj} (hu : Keeps u) (p : Obj → Bool) {gs : List Obj} (h : FnNotTent gs) :
     FnNotTent (updFirst p u gs) := by
   intro o' ho' hf
@@ -73,6 +78,7 @@ theorem fnNotTent_updFirst {u : Obj → Obj} (hu : Keeps u) (p : Obj → Bool) {
   · exact h _ ho hf
   · rw [(hu o).2.2.2]; rw [(hu o).1] at hf; exact h _ ho hf
 
+omit [Rules] in
 theorem mem_fnNamesOf {gs : List Obj} {f : Name} :
     f ∈ fnNamesOf gs ↔ ∃ o, o ∈ gs ∧ o.isFunction = true ∧ o.sym = .named f := by
   unfold fnNamesOf
@@ -89,10 +95,12 @@ theorem mem_fnNamesOf {gs : List Obj} {f : Name} :
   · rintro ⟨o, ho, hfun, hs⟩
     exact ⟨o, ho, by simp [fnName, hfun, hs]⟩
 
+omit [Rules] in
 theorem findFunc_none_iff {gs : List Obj} {f : Name} : findFunc gs f = none ↔ f ∉ fnNamesOf gs := by
   rw [mem_fnNamesOf, findFunc]
   simp only [List.find?_eq_none, Bool.and_eq_true, beq_iff_eq, not_and, not_exists]
 
+omit [Rules] in
 /-- with distinct function names, `find_func(name of o)` is `o` -/
 theorem findFunc_of_mem {gs : List Obj} (hn : (fnNamesOf gs).Nodup) {o : Obj} {f : Name} (ho : o ∈ gs)
     (hfun : o.isFunction = true) (hs : o.sym = .named f) : findFunc gs f = some o := by
@@ -128,6 +136,7 @@ inductive Evolves : List Obj → List Obj → Prop where
   | consFn {gs gs1} (o : Obj) (f : Name) (hf : o.isFunction = true) (hs : o.sym = .named f) (hl : o.isLive = false)
       (ht : o.isTentative = false) (hnew : findFunc gs1 f = none) : Evolves gs gs1 → Evolves gs (o :: gs1)
 
+omit [Rules] in
 theorem Evolves.trans {a b c : List Obj} (h1 : Evolves a b) (h2 : Evolves b c) : Evolves a c := by
   induction h2 with
   | refl => exact h1
@@ -135,6 +144,7 @@ theorem Evolves.trans {a b c : List Obj} (h1 : Evolves a b) (h2 : Evolves b c) :
   | consData o hf hl _ ih => exact Evolves.consData o hf hl ih
   | consFn o f hf hs hl ht hnew _ ih => exact Evolves.consFn o f hf hs hl ht hnew ih
 
+omit [Rules] in
 theorem WF.evolves {gs gs' : List Obj} (h : Evolves gs gs') (w : WF gs) : WF gs' := by
   induction h with
   | refl => exact w
@@ -166,11 +176,13 @@ theorem WF.evolves {gs gs' : List Obj} (h : Evolves gs gs') (w : WF gs) : WF gs'
       · exact ht
       · exact ih.fnNotTent x hx hfx
 
+omit [Rules] in
 theorem wf_nil : WF [] :=
   ⟨List.nodup_nil, fun _ h => absurd h List.not_mem_nil, fun _ h => absurd h List.not_mem_nil⟩
 
 /-! ### every parser step evolves the state -/
 
+omit [Rules] in
 theorem evolves_updFunc {gs : List Obj} (f : Name) {u : Obj → Obj} (hu : Keeps u) : Evolves gs (updFunc gs f u) :=
   Evolves.upd _ u hu Evolves.refl
 
@@ -178,6 +190,7 @@ theorem evolves_newAnon (cur : Option Name) (st : PState) (ty : ObjTy) (hi : Boo
     Evolves st.globals (newAnon cur st ty hi uses).1.globals :=
   Evolves.consData _ rfl rfl Evolves.refl
 
+omit [Rules] in
 theorem evolves_recordFnRef {cur : Option Name} {st st' : PState} {g : Name} (h : recordFnRef cur st g = .ok st') :
     Evolves st.globals st'.globals := by
   unfold recordFnRef at h
@@ -189,6 +202,7 @@ theorem evolves_recordFnRef {cur : Option Name} {st st' : PState} {g : Name} (h 
     · cases h
       exact evolves_updFunc _ (fun _ => ⟨rfl, rfl, rfl, rfl⟩)
 
+omit [Rules] in
 theorem evolves_useRef {cur : Option Name} {st st' : PState} {r : Ref} {s : Sym} (h : useRef cur st r = .ok (st', s)) :
     Evolves st.globals st'.globals := by
   cases r with
@@ -239,6 +253,7 @@ theorem evolves_initItems {cur : Option Name} : ∀ (items : List InitItem) {st 
         rw [← h.1]
         exact (evolves_newAnon cur st (strTy n) true []).trans (ih (by simpa using h2))
 
+omit [Rules] in
 theorem keeps_setUses (uses : List Sym) : Keeps (fun o => { o with uses := uses }) := fun _ => ⟨rfl, rfl, rfl, rfl⟩
 
 theorem evolves_bodyItem {f : Name} {st st' : PState} {b : BodyItem} {us : List Sym}
